@@ -1,4 +1,5 @@
 import Driver.Scalar
+import Driver.Arrays
 /- vdriver: reads one operation per line, prints the model's canonical result line. -/
 open Driver
 
@@ -9,7 +10,9 @@ def runLine (line : String) : String :=
   else if toks[0]! = "align" then "ok"
   else match scalarOp toks with
     | some r => r
-    | none => "bad-op"
+    | none => match arrayOp toks with
+      | some r => r
+      | none => "bad-op"
 
 partial def loop (h : IO.FS.Stream) (out : IO.FS.Stream) : IO Unit := do
   let line ← h.getLine
